@@ -5,7 +5,7 @@ from .ir import DATA_STRUCT, base_name
 
 def put(st, obj, off, bv):
     """write a BV little-endian into object memory"""
-    cells = st.mem.objs[obj]
+    cells = st.mem.wcells(obj)
     for k in range(bv.w // 8):
         cells[off + k] = list(bv.bits[8 * k:8 * k + 8])
 
@@ -73,8 +73,10 @@ class Deps:
         p, n = args[0], args[1].concrete()
         if n is None: raise Unmodelled('memzero with symbolic length at %s' % inst.loc)
         st.trace.append(('memzero', repr(p), n, inst.loc))
-        for k in range(n):
-            I.store(st, Ptr(p.obj, BV(I.add(p.off.bits, BV.const(k, 64).bits))), BV([0] * 8), 1, inst)
+        obj, off = I._cells(st, p, n, inst, 'store')
+        if obj is None: raise Unmodelled('memzero through a symbolic pointer at %s' % inst.loc)
+        cells = st.mem.wcells(obj)
+        for k in range(n): cells[off + k] = [0] * 8
         return None
 
     def alloc(self, I, st, args, inst):
@@ -144,7 +146,7 @@ def string_summaries(I, summ):
         st.trace.append(('utf8_nfkd_lazy', repr(args[0]), repr(args[1]), inst.loc))
         p = args[1]
         if isinstance(p, Ptr) and p.obj in st.mem.objs:
-            st.mem.objs[p.obj] = [[T(0)] * 8 for _ in st.mem.objs[p.obj]]
+            st.mem.objs[p.obj] = [[T(0)] * 8 for _ in st.mem.objs[p.obj]]; st.mem.owned.add(p.obj)
         return I.V.bv('nfkd.len', 64)
     summ['utf8_nfkd_lazy'] = nfkd_lazy
 
@@ -155,7 +157,7 @@ def string_summaries(I, summ):
         if isinstance(cur, Ptr):
             I.store(st, p, Ptr(cur.obj, BV([T(0)] * 64)), 8, inst)
             if cur.obj in st.mem.objs:
-                st.mem.objs[cur.obj] = [[T(0)] * 8 for _ in st.mem.objs[cur.obj]]
+                st.mem.objs[cur.obj] = [[T(0)] * 8 for _ in st.mem.objs[cur.obj]]; st.mem.owned.add(cur.obj)
         return None
     summ['write_str'] = write_str
 
@@ -164,8 +166,9 @@ def string_summaries(I, summ):
         p = args[1]
         if isinstance(p, Ptr) and p.obj in st.mem.objs:
             n = len(st.mem.objs[p.obj]) // 8
+            cells = st.mem.wcells(p.obj)
             for k in range(n):
                 for j in range(8):
-                    st.mem.objs[p.obj][8 * k + j] = ('tag', Tag('token', k), j)
+                    cells[8 * k + j] = ('tag', Tag('token', k), j)
         return I.V.bv('nwords', 32)
     summ['str_split'] = str_split
